@@ -288,6 +288,9 @@ def st_history(spec):
         except core.Violation as v:
             viols.append([v.oracle, v.msg, v.key])
             events.append(["violation", i, v.oracle, v.key])
+        except Exception as e:  # noqa: BLE001 - constructing / serialising / loading / hashing / comparing a valid configuration must not raise
+            viols.append(["C18.operation-raised", f"config #{i}: {type(e).__name__}: {str(e)[:300]}", None])
+            events.append(["violation", i, "C18.operation-raised", type(e).__name__])
     # a collection config of the first few live configs round-trips too
     try:
         members = [live[i] for i in sorted(live)[:3]]
